@@ -8,12 +8,12 @@ Driver of C19. Payload (space separated):
 * mode `D` = `ECALFunctionAdapter.Run` called directly, `I` = ECAL call through the
   interpreter, `T` = the same inside `try … except`.
 * types (comma separated, `-` = none): `int int8 … uintptr f32 f64 bool str iface error io<n>
-  emap o<n>` and `S<type>` for a slice; with `V` the last parameter is the variadic slice.
+  emap o<n>`, `S<type>` for a slice, `N<n>(<type>)` for a defined type with that underlying type; with `V` the last parameter is the variadic slice.
 * body: `echo` (returns what it received), `echo+<value>|…` (… followed by these values), `vlen` (returns the fixed arguments and the number of
   variadic ones), `k:<value>|<value>…` (returns these values; `k:` = none), `panic`, `opaque`
   (a function of the generated stdlib: assumed not to panic, values unknown), `notfunc`.
 * values: `z` nil, `b:0|1`, `n:<float64 bits|nan>`, `g:<bits>` float32 (as float64 bits),
-  `i:<kind>:<decimal>`, `s:<hex>`, `l[…]`, `m{…}`, `f` (an ECAL function object), `e` (the
+  `i:<kind>:<decimal>`, `s:<hex>`, `l[…]`, `m{…}`, `N<n>(<value>)` (a value of a defined type), `f` (an ECAL function object), `e` (the
   harness's error value). An argument number carries the platform's conversion to the
   parameter's integer kind as `n:<bits>:<decimal>` (`-` if the parameter is not of integer kind);
   the model uses it only when the truncated value is outside the kind's range.
@@ -53,6 +53,10 @@ partial def parseTy (s : String) : Option Ty :=
     | _ =>
       match s.toList with
       | 'S' :: rest => (parseTy (String.ofList rest)).map Ty.slice
+      | 'N' :: rest =>
+        let idS := String.ofList (rest.takeWhile (· != '('))
+        let inner := ((rest.dropWhile (· != '(')).drop 1).dropLast
+        do let id ← idS.toNat?; let u ← parseTy (String.ofList inner); pure (Ty.named id u)
       | 'i' :: 'o' :: rest => (String.ofList rest).toNat?.map Ty.ifaceOther
       | 'o' :: rest => (String.ofList rest).toNat?.map Ty.other
       | _ => none
@@ -102,8 +106,12 @@ def parseNumBits (s : String) : Option Num :=
   if s = "nan" then some .nan else (parseHexNat s).map decodeF64
 
 /-- a value token; for `n:<bits>:<oracle>` also the oracle -/
-def parseVal (s : String) : Option (Val × Option Int) :=
+partial def parseVal (s : String) : Option (Val × Option Int) :=
   match s.toList with
+  | 'N' :: rest =>
+    let idS := String.ofList (rest.takeWhile (· != '('))
+    let inner := ((rest.dropWhile (· != '(')).drop 1).dropLast
+    do let id ← idS.toNat?; let v ← parseVal (String.ofList inner); pure (.named id v.1, none)
   | ['z'] => some (.nil, none)
   | ['f'] => some (.foreign (.other 1) "f", none)
   | ['e'] => some (.foreign (.other 2) "e", none)
@@ -130,6 +138,7 @@ def showVal : Val → String
   | .list c => c
   | .map c => c
   | .foreign _ c => c
+  | .named id v => "N" ++ toString id ++ "(" ++ showVal v ++ ")"
 
 def showRet : Ret → String
   | .one v => showVal v
